@@ -5,7 +5,8 @@ from vlib.core import Case, BUILD
 ID = "C14"
 LEAN_MODULE = "Ctrmml.Properties.C14"
 THEOREMS = ["C14_inv_histories_partial", "C14_content_stable", "C14_fresh_disjoint", "C14_bank_rule", "C14_dedupe",
-            "C14_dedupe_complete", "C14_header_roundtrip", "C14_wav_sample_conversion_partial", "C14_offset_window_counterexample"]
+            "C14_dedupe_complete", "C14_header_roundtrip", "C14_reader_total", "C14_add_total", "C14_wav_decode",
+            "C14_tag_window_partial", "C14_offset_fresh_stored", "C14_offset_window_counterexample"]
 LEVEL = "proof"
 STREAM = "wave.ops"
 CHUNK = 40
@@ -21,8 +22,9 @@ EXPLANATION = ("theorems over Model/Wave + Spec/Alloc (all histories of admissib
                "regions and gaps, bank rule, stored-once, content stability) is applied to the implementation's answers")
 ASSUMPTIONS = ["banks and sample data below 1 GiB (int/uint32_t arithmetic of wave.cpp does not wrap)",
                "one include path (the default \"\")",
-               "WAV files of the property's quantifier: canonical fmt+data, 8/16 bit, 1-2 channels; the reader's behaviour on other files "
-               "(unsupported bit depths, truncated files, smpl loops beyond the data) is modelled but not part of this property",
+               "files shorter than 2^32-1 bytes (the reader keeps the file size in a uint32_t)",
+               "wav_decode covers files made of fmt, data, an optional smpl chunk without loop records and arbitrary other chunks; "
+               "smpl loops (which shorten the sample to the loop end) are modelled and diffed but not part of the decode theorem",
                "partial: additions whose data is placed fresh with a non-zero start offset are excluded (known finding D11)"]
 TRUSTED = ["Spec/Alloc.lean (windows, tiling, bank rule, PCM conversion and canonical WAV layout)"]
 
@@ -117,12 +119,75 @@ def handmade(rng):
         b = riff([chunk(b"data", d), f])
     elif kind == "riff-size-small":
         full = riff([f, chunk(b"data", d)])
-        b = full[:4] + le32(rng.choice([12, 28])) + full[8:]
+        b = full[:4] + le32(rng.choice([4, 12, 28])) + full[8:]
     elif kind == "empty-data":
         b = riff([f, chunk(b"data", b"")])
     else:
         b = riff([chunk(b"fmt ", le16(1) + le16(1) + le32(8000)), chunk(b"data", d)])
     return xfile(b), ["handmade", "handmade-" + kind]
+
+
+def fmtx(bits, ch, rate=8000):
+    ba = ch * bits // 8
+    return chunk(b"fmt ", le16(1) + le16(ch) + le32(rate) + le32(rate * ba) + le16(ba) + le16(bits))
+
+
+def malformed(rng):
+    """(filespec, tags): files that used to make Wave_File::read / add_sample read outside a buffer or loop
+    forever (fixed f90557f..cc35940), and random corruptions of well-formed files"""
+    n = rng.choice([1, 2, 5, 8, 9, 16])
+    d = data_bytes(n, rng.randrange(256))
+    bits = rng.choice([8, 16])
+    ch = rng.choice([1, 2])
+    f = fmtx(bits, ch)
+    kind = rng.choice(["width", "riff-size-large", "trailing-bytes", "no-chunks", "no-fmt", "smpl-loop-beyond", "size-wrap-unknown",
+                       "size-wrap-data", "size-wrap-fmt", "empty-data", "empty-list", "partial-frame", "smpl-short-loop",
+                       "mut-trunc", "mut-field", "mut-byte", "mut-byte", "mut-field"])
+    if kind == "width":
+        b = riff([fmtx(rng.choice([4, 12, 24, 32, 0, 7, 9, 15, 17]), rng.choice([1, 2])), chunk(b"data", d)])
+    elif kind == "riff-size-large":
+        full = riff([f, chunk(b"data", d)])
+        b = full[:4] + le32(len(full) - 8 + rng.choice([1, 2, 7, 8, 9, 100, 0x7fffffff, 0xfffffff0])) + full[8:]
+    elif kind == "trailing-bytes":
+        full = riff([f, chunk(b"data", d)])
+        extra = bytes(rng.randrange(256) for _ in range(rng.choice([1, 2, 3, 4, 7, 8, 9])))
+        b = full[:4] + le32(len(full) - 8 + len(extra)) + full[8:] + extra
+    elif kind == "no-chunks":
+        b = b"RIFF" + le32(rng.choice([4, 5, 6])) + b"WAVE" + bytes(rng.choice([1, 2, 3]))
+    elif kind == "no-fmt":
+        b = riff([chunk(b"LIST", b"INFOabcd")] + ([smpl_chunk(60, [(0, 3)])] if rng.random() < 0.5 else []))
+    elif kind == "smpl-loop-beyond":
+        b = riff([f, chunk(b"data", d), smpl_chunk(60, [(0, rng.choice([n, n + 1, 99, 0xfffffffe, 0xffffffff]))])])
+    elif kind == "size-wrap-unknown":
+        b = riff([f, chunk(b"junk", b"abcd", size=rng.choice([0xfffffff8, 0xfffffff9, 0xffffffff, 0xfffffff0])), chunk(b"data", d)])
+    elif kind == "size-wrap-data":
+        b = riff([f, chunk(b"data", d, size=rng.choice([0xfffffff8, 0xffffffff, 0x80000000]))])
+    elif kind == "size-wrap-fmt":
+        b = riff([chunk(b"fmt ", b"\1\0\1\0", size=rng.choice([0xffffffff, 0xfffffff8]))])
+    elif kind == "empty-data":
+        b = riff([f, chunk(b"data", b"")] + ([chunk(b"data", d)] if rng.random() < 0.3 else []))
+    elif kind == "empty-list":
+        b = riff([chunk(b"LIST", b""), f, chunk(b"data", d)])
+    elif kind == "partial-frame":
+        b = riff([fmtx(rng.choice([8, 16]), rng.choice([1, 2])), chunk(b"data", d, pad=False)])
+    elif kind == "smpl-short-loop":
+        body = le32(0) * 3 + le32(60) + le32(0) * 3 + le32(1) + le32(0) + bytes(rng.choice([0, 4, 8, 12, 15, 16, 20, 23]))
+        b = riff([f, chunk(b"data", d + (b"\0" if len(d) % 2 else b""), pad=False), chunk(b"smpl", body, pad=False)])
+    else:
+        full = bytearray(riff([f, chunk(b"data", d)] + ([smpl_chunk(60, [(0, max(0, n // ch // (bits // 8) - 1))])] if rng.random() < 0.4 else [])))
+        if kind == "mut-trunc":
+            full = full[:rng.randrange(0, len(full))]
+        elif kind == "mut-field":
+            o = rng.choice([4, 16, 20, 22, 24, 32, 34, 40, 44 + (len(d) + 1) // 2 * 2 + 4, rng.randrange(0, max(1, len(full) - 4))])
+            v = rng.choice([0, 1, 2, 3, 7, 8, 9, 0x10, 0x2c, 0x34, len(full), len(full) - 8, 0x7fffffff, 0x80000000, 0xfffffff8, 0xffffffff,
+                            rng.randrange(1 << 32)])
+            if o + 4 <= len(full):
+                full[o:o + 4] = le32(v)
+        else:
+            for _ in range(rng.choice([1, 1, 2, 4])):
+                full[rng.randrange(len(full))] = rng.randrange(256)
+        b = bytes(full)
+    return xfile(b), ["malformed", "malformed-" + kind]
 
 
 # ------------------------------------------------------------------ histories
@@ -238,6 +303,32 @@ CORPUS = [
     ("wave 150000 0 | T w:8:2:22050:70000:1 | T w:16:1:22050:65536:2 | T w:8:2:22050:65535:1", ["corpus", "big>=32768"]),
 ]
 
+def _x(b):
+    return "wave 256 64 | R 0 5 0 0 1 0 0 f:5:1 | T %s | R 0 3 0 0 1 0 0 f:3:2" % xfile(b)
+
+
+_D8 = data_bytes(8, 1)
+_F8 = fmt_chunk(8, 1, 8000)
+CORPUS += [
+    # reader defects fixed f90557f .. cc35940 (each used to crash the sanitizer build or never return)
+    (_x(riff([fmtx(24, 1), chunk(b"data", _D8 + b"\1")])), ["corpus", "malformed", "malformed-width"]),
+    (_x(riff([fmtx(4, 2), chunk(b"data", _D8)])), ["corpus", "malformed", "malformed-width"]),
+    (_x(riff([_F8, chunk(b"data", _D8)], size=200)), ["corpus", "malformed", "malformed-riff-size-large"]),
+    (_x(b"RIFF" + le32(5) + b"WAVE\0"), ["corpus", "malformed", "malformed-no-chunks"]),
+    (_x(riff([chunk(b"LIST", b"INFOabcd")])), ["corpus", "malformed", "malformed-no-fmt"]),
+    (_x(riff([_F8, chunk(b"data", _D8), smpl_chunk(60, [(0, 99)])])), ["corpus", "malformed", "malformed-smpl-loop-beyond"]),
+    (_x(riff([_F8, chunk(b"junk", b"abcd", size=0xfffffff8), chunk(b"data", _D8)])), ["corpus", "malformed", "malformed-size-wrap-unknown"]),
+    (_x(riff([_F8, chunk(b"data", _D8, size=0xfffffff8)])), ["corpus", "malformed", "malformed-size-wrap-data"]),
+    (_x(riff([chunk(b"fmt ", b"\1\0\1\0", size=0xffffffff)])), ["corpus", "malformed", "malformed-size-wrap-fmt"]),
+    (_x(riff([_F8, chunk(b"data", b"")])), ["corpus", "malformed", "malformed-empty-data"]),
+    (_x(riff([chunk(b"LIST", b""), _F8, chunk(b"data", _D8)])), ["corpus", "malformed", "malformed-empty-list"]),
+    (_x(riff([fmtx(16, 1), chunk(b"data", _D8 + b"\7", pad=False)])), ["corpus", "malformed", "malformed-partial-frame"]),
+    (_x(riff([fmtx(16, 2), chunk(b"data", _D8[:5], pad=False)])), ["corpus", "malformed", "malformed-partial-frame"]),
+    (_x(riff([_F8, chunk(b"data", _D8), chunk(b"smpl", le32(0) * 3 + le32(60) + le32(0) * 3 + le32(1) + le32(0) + le32(0) * 2)])),
+     ["corpus", "malformed", "malformed-smpl-short-loop"]),
+    ("wave 256 0 | R 0 9 0 0 8000 0 0 f:8:1 | R 2 9 0 0 8000 0 0 f:8:1", ["corpus", "header-longer-than-data"]),
+]
+
 SIZES_EX = [0, 1, 8, 15, 16, 17, 33]
 
 
@@ -279,6 +370,9 @@ def cases(rng, tier):
     for i in range(60 if tier == "quick" else 900):
         f, tags = handmade(rng)
         yield Case("wave 256 64 | R 0 5 0 0 1 0 0 f:5:1 | T %s | T %s rate=5 | R 0 3 0 0 1 0 0 f:3:2" % (f, f), tags + ["malformed-stream"], "malformed")
+    for i in range(300 if tier == "quick" else 5000):
+        f, tags = malformed(rng)
+        yield Case("wave 256 64 | R 0 5 0 0 1 0 0 f:5:1 | T %s | T %s rate=5 | R 0 3 0 0 1 0 0 f:3:2" % (f, f), tags, "malformed")
 
 
 def outcome_class(a):
@@ -338,12 +432,14 @@ def shrink(req):
                 yield head.strip() + " | " + " | ".join(ops[:i] + [" ".join(t[:j] + t[j + 1:])] + ops[i + 1:])
 
 
-TECHNIQUE = "Lean 4 proof (allocator invariant by induction over addition histories) + differential correspondence model<->wave.cpp"
+TECHNIQUE = "Lean 4 proof (allocator invariant by induction over addition histories; reader totality and decode by induction over chunks/frames) + differential correspondence model<->wave.cpp"
 LEVEL_TEXT = ("Machine-checked theorems over a Lean model of wave.cpp: an invariant (every window inside one freshly allocated region and inside the "
               "used area, window bytes = requested bytes, fresh regions and gaps tile the used area exactly and sum to it, bank rule, headers "
               "never change) holds after every history of admissible additions; later additions never change an existing window; byte-identical "
               "data is found again and adds nothing; failed additions leave the bank unchanged; the reader decodes every canonical 8/16-bit "
-              "mono/stereo file to the 8-bit unsigned conversion of channel 0; headers round-trip. Partial: additions placed fresh with a "
+              "mono/stereo WAV file (fmt, data, optional smpl, any other chunks) to the 8-bit unsigned conversion of channel 0 (proved for all "
+              "recordings); the reader and add_sample(Tag) are total on every byte string (no out-of-bounds read, no unbounded loop); "
+              "headers round-trip. Partial: additions placed fresh with a "
               "non-zero start offset are excluded (D11, counterexample theorem + known finding). Model tied to the code by regenerated "
               "constants and by diffing model and wave.cpp on generated histories.")
 LEVEL_NOTE = ("Trusted: Lean kernel (axioms propext, Classical.choice, Quot.sound at most), the hand-written model Model/Wave.lean (agreement with "
